@@ -344,6 +344,13 @@ Definition get_message_code : list dstmt :=
 (* driver/netconf/rpc.go Driver.sendRPC (the polling goroutine as one effect) *)
 Definition send_rpc_code : list dstmt :=
   [DIf (DAtom "d.ForceSelfClosingTags") [] []; DCall "m.serialize(d.SelectedVersion, d.ForceSelfClosingTags, d.ExcludeHeader)"; DIf (DNot (DEq "err" "nil")) [DReturn "nil, err"] []; DAssign "r" "response.NewNetconfResponse( serialized.rawXML, serialized.framedXML, d.Transport.GetHost(), d.Transport.GetPort(), d.SelectedVersion, )"; DAssign "err" "d.Channel.WriteAndReturn(serialized.framedXML, false)"; DIf (DNot (DEq "err" "nil")) [DReturn "nil, err"] []; DIf (DEq "d.SelectedVersion" "V1Dot1") [DAssign "err" "d.Channel.WriteReturn()"; DIf (DNot (DEq "err" "nil")) [DReturn "nil, err"] []] []; DAssign "done" "make(chan []byte)"; DCall "context.WithCancel(context.Background()) -> ctx, cancel"; DCall "defer cancel()"; DCall "go func() { defer close(done) var data []byte for { if ctx.Err() != nil { return } data = d.getMessage(m.MessageID) if data != nil { break } time.Sleep(5 * time.Microsecond) } select { case done <- data: case <-ctx.Done(): } }()"; DAssign "timer" "time.NewTimer(d.Channel.GetTimeout(op.Timeout))"; DSwitch "select" [(["err = <-d.errs"], [DReturn "nil, err"]); (["<-timer.C"], [DReturn "nil, fmt.Errorf(""%w: channel timeout sending input to device"", util.ErrTimeoutError)"]); (["data := <-done"], [DCall "r.Record(data)"])]; DReturn "r, nil"].
+(* driver/network/privilege.go Driver.buildPrivGraph, buildJoinedPromptPattern, UpdatePrivileges *)
+Definition build_priv_graph_code : list dstmt :=
+  [DAssign "d.privGraph" "map[string]map[string]bool{}"; DRange "privLevel" "d.PrivilegeLevels" [DAssign "privLevel.patternRe" "regexp.MustCompile(privLevel.Pattern)"; DAssign "d.privGraph[privLevel.Name]" "map[string]bool{}"; DIf (DNot (DEq "privLevel.PreviousPriv" """""")) [DAssign "d.privGraph[privLevel.Name][privLevel.PreviousPriv]" "true"] []]; DRange "privLevelList" "d.privGraph" [DAssign "higherPrivLevel" "index of privLevelList"; DRange "privLevel" "keys of privLevelList" [DAssign "d.privGraph[privLevel][higherPrivLevel]" "true"]]].
+Definition build_joined_code : list dstmt :=
+  [DAssign "patterns" "make([]string, 0)"; DRange "priv" "d.PrivilegeLevels" [DAssign "patterns" "append(patterns, priv.Pattern)"]; DAssign "joinedPattern" "strings.Join(patterns, ""|"")"; DAssign "d.Driver.Channel.PromptPattern" "regexp.MustCompile(joinedPattern)"].
+Definition update_privileges_code : list dstmt :=
+  [DCall "d.buildPrivGraph()"; DCall "d.buildJoinedPromptPattern()"].
 (* channel/write.go Channel.Write, WriteReturn, WriteAndReturn (the debug message is an effect here) *)
 Definition chan_write_code : list dstmt :=
   [DAssign "lm" "string(b)"; DIf (DAtom "r") [DAssign "lm" "redacted"] []; DCall "c.l.Debugf(""channel write %#v"", lm)"; DReturn "c.t.Write(b)"].
